@@ -16,6 +16,8 @@ def suites_for(prop):
     table = {"M": suite_m.SuiteM}
     import suite_s
     import suite_c
+    import suite_f
+    table["F"] = suite_f.SuiteF
     table["S"] = suite_s.SuiteS
     table["C"] = suite_c.SuiteC
     c = claims.CLAIMS.get(prop)
